@@ -172,6 +172,10 @@ pub fn gen_interest(rng: &mut Rng, cfg: &WorldCfg) -> InterestRateConfigCompact 
             _ => rng.below(300) as f64 / 1000.0,
         }
     };
+    // one bank in six charges no bank-level fee at all (neither insurance nor group), so that the
+    // program fee - which comes from the global fee state, not from the bank - is the only fee
+    let feeless = rng.chance(1, 6);
+    let mut fee = move |rng: &mut Rng| -> f64 { if feeless { 0.0 } else { fee(rng) } };
     InterestRateConfigCompact {
         insurance_fee_fixed_apr: w(fee(rng) / 10.0),
         insurance_ir_fee: w(fee(rng)),
